@@ -2,7 +2,7 @@
 //
 // Case lines (inputs first, then what the implementation returned):
 //
-//	C16.gen   kind n rooted seed | class ints lens sync dump tips rootedFlag probes answers bits nright rawbits nleft hashcodes topodepths tipindexes
+//	C16.gen   kind n rooted seed | class ints lens sync dump tips rootedFlag probes answers bits nright rawbits nleft hashcodes topodepths tipindexes nodedepths
 //	C16.cli   kind n rooted seed nb tofile variant argv | exit errflags ntrees unreadable-output dumps ints;… lens;…
 //	C16.topo  n rooted via names | class dumps            (via = lib | cli; names may be empty)
 //
@@ -308,7 +308,7 @@ func doGen(c *core.Ctx, kind string, n int, rooted bool, seed int64) {
 		bitsField = "NOBITS"
 	}
 	out("ok", a.Dump(), core.StrList(tips), b01(t.Rooted()), core.StrList(probes), ans.String(), bitsField, core.IntList(nright),
-		rawbits.String(), core.IntList(nleft), termList(hcodes), core.IntList(topod), core.IntList(tipidx))
+		rawbits.String(), core.IntList(nleft), termList(hcodes), core.IntList(topod), core.IntList(tipidx), core.IntList(nodeDepths(t)))
 }
 
 // parseTrees reads the Newick lines of a command's stdout with the real parser and returns the
@@ -532,6 +532,21 @@ func doTopo(c *core.Ctx, n int, rooted bool, via string, names []string) {
 		b.WriteByte('|')
 	}
 	c.Emit("C16.topo", append(in, "ok", b.String())...)
+}
+
+// nodeDepths: Node.Depth() of every node in Nodes() order (-1 = error, depth not computed)
+func nodeDepths(t *tree.Tree) []int {
+	var out []int
+	core.Safe(func() {
+		for _, n := range t.Nodes() {
+			d, err := n.Depth()
+			if err != nil {
+				d = -1
+			}
+			out = append(out, d)
+		}
+	})
+	return out
 }
 
 // termList: each item followed by ","
